@@ -3,7 +3,7 @@ from checks.tsutil import *
 from checks.orswotgen import *
 
 ID = 'C05'
-LEAN_MODULES = ['C05', 'C05b']
+LEAN_MODULES = ['C05', 'C05b', 'C05c']
 RULE = ('one case = two replicas (OrSWotSet<2>, plus OrSWotSet<1> for the diff itself) built from subsets of a shared list of inserts/deletes with distinct stamps '
         '(<=3 origins, <=5 keys; window or gap-free-prefix construction; boundary gaps), then diff(a,b) [checked against the definition of "lacks" by the python oracle on the dumps '
         'and cut-off probes], the diff applied to a on the repair source in one of: removals-first, modifications-first, 6 seeded interleavings; then diff again (must be empty), '
@@ -13,7 +13,7 @@ ASSUMPTIONS = ['the difference is applied on a source (1) that direct replicatio
                'for a single-source set the split application needs the window condition (see DESIGN.md C05)',
                'FORGIVENESS_PERIOD = 3600 s; valid stamps; replicas built without purge']
 TRUSTED_BASE = ['correspondence: dcharness (real diff / insert_with_source / delete_with_source) vs dcdriver (Datacake.OrSwot.diff model)']
-THEOREM_NOTE = 'Datacake.OrSwot.diff / lacks (Model/Orswot.lean); theorems diff_exact, diff_nodup, diff_disjoint, diff_lww, applied_not_lacking_insert'
+THEOREM_NOTE = 'Datacake.OrSwot.diff / lacks (Model/Orswot.lean); theorems diff_exact, diff_nodup, diff_disjoint, diff_lww, applied_not_lacking_insert; exchange: apply_diff_closes_partial / exchange_converges_partial (window), apply_diff_closes_gapfree / exchange_dominates_gapfree / exchange_converges_gapfree (gap-free prefixes, any time span, two sources), single_source_counterexample'
 
 
 def gen_case(rng, idx):
@@ -60,7 +60,7 @@ def gen_case(rng, idx):
 
 
 def generate(rng, tier):
-    n = dict(quick=2500, thorough=80000, search=40000)[tier]
+    n = dict(quick=2500, thorough=400000, search=40000)[tier]
     return [gen_case(rng.fork(), i) for i in range(n)]
 
 
